@@ -328,6 +328,61 @@ def run(project, chk):
                               message=f"to_console receives `{var}` as defined at line(s) {[kcfg.nodes[d].lineno if d >= 0 else 0 for d in bad]} although a hex rendering was computed after that definition: the preview is painted with the raw return value (an hsl() string makes rich raise ColorParseError, so show=True raises where the plain call returns)")
     chk.floor("colour arguments of the console preview", n_prev, 3)
 
+    # ---------------------------------------------------------------- R9: the re-read colour is rendered when (and only when) it is valid
+    chk.rule("R9", "make_readable's preview takes the hex rendering of the re-read result on the path where that colour is valid, never on the path where it is not "
+                   "(to_hex() of an invalid colour is None; a valid hsl() result left unrendered makes rich raise)")
+    from sa.guards import guard_states as _gs, common_literals as _cl
+    kG = _gs(kcfg)
+    for knode in kcfg.nodes:
+        x = knode.ast
+        if knode.kind == "stmt" and isinstance(x, ast.Assign) and isinstance(x.value, ast.Call) and isinstance(x.value.func, ast.Attribute) and x.value.func.attr == "to_hex" \
+                and isinstance(x.value.func.value, ast.Name) and not of_own_pair(x.value):
+            recv = x.value.func.value.id
+            lits = _cl(kG.get(knode.id))
+            inverted = (f"{recv}.is_valid", False) in lits
+            chk.check(not inverted, "R9", mk.short, norm_text(x), project.loc(mk.module, x), f"{recv}.to_hex() is taken on the path where {recv} is valid",
+                      how=f"guards: {sorted(t for t, v in lits if recv in t)}",
+                      message=f"`{norm_text(x)}` executes only when {recv} is NOT valid: a valid re-read result (e.g. an hsl() string) reaches the preview unrendered and rich raises ColorParseError -- show=True raises where the plain call returns")
+
+    # ---------------------------------------------------------------- R10: the bulk report formats parsed colours, not the caller's raw values
+    chk.rule("R10", "inside the save_report region of make_readable_bulk a validating converter (core.conversions.*) is only ever given a parsed colour (a Color's rgb / the returned colour), "
+                    "never the caller's raw entry: raw tuples in other accepted spellings (hsl tuples, strings) make it raise, so asking for the report would change the outcome")
+    from sa.wire import Origins, show as oshow
+    bk = project.func(BULK)
+    bcfg = build_cfg(bk.node)
+    borg = Origins(project, bk, bcfg)
+    bsc = Scope(project, bk)
+    pairs_param = bk.params()[0]
+
+    def raw_entry(o) -> bool:
+        if isinstance(o, frozenset):
+            return any(raw_entry(z) for z in o)
+        if not isinstance(o, tuple) or not o:
+            return False
+        if o[0] == "elem" and o[1] == ("param", pairs_param):
+            return True
+        if o[0] in ("item", "index", "elem"):
+            return raw_entry(o[1])
+        if o[0] == "phi":
+            return any(raw_entry(z) for z in o[1])
+        if o[0] == "ifexp":
+            return raw_entry(o[2]) or raw_entry(o[3])
+        if o[0] == "tuple":
+            return any(raw_entry(z) for z in o[1])
+        return False
+    n_conv = 0
+    for bnode in bcfg.nodes:
+        for e in node_exprs(bnode):
+            for c in ast.walk(e):
+                if isinstance(c, ast.Call) and (bsc.resolve_call(c) or "").startswith("cm_colors.core.conversions.") and c.args:
+                    n_conv += 1
+                    o = borg.of(bnode.id, c.args[0])
+                    chk.check(not raw_entry(o), "R10", bk.short, norm_text(c), project.loc(bk.module, c), "the converter is given a parsed colour",
+                              how=f"origin: {oshow(o)[:80]}",
+                              message=f"`{norm_text(c)}` formats the caller's raw entry ({oshow(o)[:60]}) with a validating converter: for accepted spellings that are not 0-255 integer triples "
+                                      f"(hsl tuples, numeric strings) it raises inside the report code, so save_report=True raises where the plain call returns")
+    chk.floor("converter calls in make_readable_bulk", n_conv, 2)
+
     # ---------------------------------------------------------------- R2..R4 per API function
     total_io_nodes = 0
     for q, file_param in ((MAKE, "save_report"), (BULK, "save_report")):
